@@ -402,6 +402,65 @@ def check_partial_products_exact(r, repo, c1_for, rule="R17.7"):
              sample=dict(rule=rule, bits=b, split_at=sbits, head_bits=head, tail_bits=tail, two_over_pi_word_bits=prec, source=src))
 
 
+def check_two_over_pi_budget(r, repo, rule="R17.8"):
+    """Trigonometric reduction, truncation budget of the multiword 2/pi.  get_two_over_pi_multiword evaluates 2/pi at a working
+    precision of `max_prec` bits (a per-format table) before it is cut into words, and no word of the format can carry a bit
+    below the smallest subnormal: the reduction multiplies x by T_m = 2/pi rounded to m = min(max_prec, -log2(smallest subnormal))
+    bits.  The product is otherwise exact (R17.6, R17.7), so x*(2/pi - T_m) goes straight into the remainder: an argument whose
+    remainder has c leading zero bits needs it below one ulp of that remainder (10 ulp in float16).  Decided in exact rational
+    arithmetic on frozen witness arguments of graded cancellation inside the stated domain (sa/oracles/trig_witness.py; on these
+    the term agrees with the measured error of the real function to within half an ulp): per format and binade, every witness
+    must keep |x*(2/pi - T_m)| * pi/2 <= (tol + 1) * ulp(remainder)."""
+    from sa.oracles.trig_witness import TWO_OVER_PI as T, WITNESSES, DOMAIN_J
+    from sa.numconst import EMIN, EMAX
+
+    UT = "utils.py"
+    f = repo.func(UT, "get_two_over_pi_multiword")
+    withs = [w for w in ast.walk(f) if isinstance(w, ast.With)]
+    wp = [it.context_expr for w in withs for it in w.items if isinstance(it.context_expr, ast.Call) and (call_name(it.context_expr) or "").endswith("workprec")]
+    if len(wp) != 1 or len(wp[0].args) != 1:
+        raise AnalysisError("utils.get_two_over_pi_multiword: `with ctx.workprec(<bits>)` not found")
+    inside = [c for c in ast.walk(withs[0]) if isinstance(c, ast.Call) and (call_name(c) or "").split(".")[-1] == "mpf2multiword"]
+    if not inside:
+        raise AnalysisError("utils.get_two_over_pi_multiword: 2/pi is not cut into words inside the working-precision block")
+    arg = wp[0].args[0]
+    node = _single_assignment(f, arg.id) if isinstance(arg, ast.Name) else arg
+    for b in BITS:
+        mp_ = node.value if isinstance(node, ast.Constant) and isinstance(node.value, int) else _dtype_table(node, b) if node is not None else None
+        if mp_ is None:
+            raise AnalysisError(f"utils.get_two_over_pi_multiword: working precision for float{b} is not a per-format table entry")
+        pp = PREC[b]
+        finest = -(EMIN[b] - pp + 1)
+        m_eff = min(mp_, finest)
+        Tm = Fraction(round(T * 2 ** m_eff), 2 ** m_eff)
+        tail = abs(T - Tm)
+        tol = 10 if b == 16 else 1
+        by_binade = {}
+        for e, c, m in WITNESSES[b]:
+            if e + 1 > EMAX[b] + 1 - DOMAIN_J[b]:
+                continue
+            x = Fraction(m) * Fraction(2) ** (e - (pp - 1))
+            y = x * T
+            d = y - round(y)
+            rem = abs(d) / T  # |remainder| = |d| * pi/2
+            err = x * tail / T / ulp(b, rem)
+            by_binade.setdefault(e, []).append((c, err, m))
+        for e, rows in sorted(by_binade.items()):
+            bad = sorted((c, err, m) for c, err, m in rows if err > tol + 1)
+            worst = max(rows, key=lambda t: t[1])
+            if bad:
+                c0, err0, m0 = bad[0]
+                key = f"{UT}::get_two_over_pi_multiword float{b} arguments in [2^{e}, 2^{e + 1}): the bound is lost from {c0} bits of cancellation"
+                detail = (f"2/pi is evaluated at {mp_} bits ({m_eff} usable in float{b}); for x = {m0} * 2^{e - (pp - 1)} (x * 2/pi within 2^-{c0} of an integer) the neglected tail "
+                          f"alone moves the remainder by {float(err0):.3g} ulp (allowed {tol}); {len(bad)} of {len(rows)} witnesses of this binade fail, the worst by {float(worst[1]):.3g} ulp")
+            else:
+                key = f"{UT}::get_two_over_pi_multiword float{b} arguments in [2^{e}, 2^{e + 1}): the bound is kept on every witness"
+                detail = ""
+            r.ob(rule, key, not bad, detail, loc(UT, wp[0]),
+                 sample=dict(rule=rule, bits=b, binade=e, working_precision=mp_, usable_bits=m_eff, witnesses=len(rows), failing=len(bad),
+                             worst_truncation_error_ulp=float(worst[1]), at_cancellation_bits=worst[0]))
+
+
 def run(repo, tier):
     r = Report("C17", tier, repo, level="other", design_ref="§3/C17")
     r.explanation = (
@@ -423,6 +482,7 @@ def run(repo, tier):
     r.rule("R17.5", "exponential reduction, derived per format by partitioning the domain by k (exact rational bounds from monotone rounding, Sterbenz, one rounding of k*ln2lo): |r + c| <= 0.55 ln 2 and |k ln2 + (r + c) - x| <= ulp(x) for every admissible x", floor=3)
     r.rule("R17.6", "trigonometric reduction, multiword product modulo 4 (exact-arithmetic identity on symbolic words, 2Sum by contract, trunc/round as integer unknowns): k + r + rest == sum of all partial products minus a multiple of 4; k is reduced modulo 4; r = total - round(total)", floor=9)
     r.rule("R17.7", "trigonometric reduction, premise of R17.6: per format, (bits of a word of the triple-word split of x) + (bits of a word of the multiword 2/pi) <= p, so every partial product is exact; the word lengths are read from the splitter constants and from the table that reaches mpf2multiword", floor=3)
+    r.rule("R17.8", "trigonometric reduction, truncation budget: with 2/pi rounded to the bits the getter evaluates (and the format can hold), the neglected tail times x stays within the tolerance in ulp of the remainder on every frozen witness argument of the stated domain, per format and binade (exact rational arithmetic)", floor=9)
     r.rule("R17.2", "reduction formula (dataflow): k = floor(x*INV + 1/2), r = x - k*HI, c = -k*LO with one constant in each place", floor=3)
 
     from sa.kernels import Extractor, IN, CONST, normal as knf, show, lift, is_term, Unsupported as KUnsupported
@@ -512,6 +572,7 @@ def run(repo, tier):
             check_exponent_bounds(r, b, round_to(b, value_for(HI, b)), round_to(b, value_for(LO, b)), round_to(b, value_for(INV, b)), loc(REL, g))
     check_trig_recombination(r, repo)
     check_product_mod4(r, repo)
+    check_two_over_pi_budget(r, repo)
     try:
         c12 = ex.call(REL, "get_tripleword_splitter_constants", [("opaque", "ctx"), CONST("largest")], {})
     except KUnsupported as e:
